@@ -2,23 +2,13 @@ package props
 
 import "verif/core"
 
-type TrieCase struct{}
-
-func (t *TrieCase) size() int      { return 0 }
-func (t *TrieCase) String() string { return "" }
-
 type RegionsCase struct{}
 
 func (t *RegionsCase) size() int      { return 0 }
 func (t *RegionsCase) String() string { return "" }
 
-func execC18(c *Case) *Verdict { return nil }
-func execC15(c *Case) *Verdict { return nil }
 func execC16(c *Case) *Verdict { return nil }
 
-func shrinkTrie(c *Case, try func(*Case) bool) bool    { return false }
 func shrinkRegions(c *Case, try func(*Case) bool) bool { return false }
 
-func RunC18(ctx *core.Ctx, r *core.Rng) {}
-func RunC15(ctx *core.Ctx, r *core.Rng) {}
 func RunC16(ctx *core.Ctx, r *core.Rng) {}
